@@ -13,6 +13,9 @@ fn nontrivial_bin(op: Bin, a: u32, b: u32, cf: bool, w: u32) -> bool {
 }
 
 pub fn run(ctx: &Ctx) {
+    if !crate::l0::L0_DIRECT {
+        ctx.note("the signatures of the public instruction functions in the working tree differ from the L0 tables: the harness was built without the direct calls, the L0 sweeps are skipped and the L1 (assembler + interpreter) and L3 (CLI) parts decide");
+    }
     ctx.set_rule("L0: every (a,b,CF_in) byte point of ADD/ADC/SUB/SBB/CMP and every (a,CF_in) of INC/DEC/NEG under 4 prior flag words (enumerated, distinct by construction); word functions on the fixed lattice L16 squared plus proptest-generated stratified pairs (thorough: all 2^32 pairs x CF_in). L1: every operand form of syntax.md through Preprocessor+Interpreter on stratified machine states with whole-machine comparison. Non-trivial = carry/borrow out of bit 3/7/15, signed overflow, zero result, or CF_in=1 for ADC/SBB; for L1 additionally a memory operand.");
     ctx.assume("reference ALU: bit-serial ripple adder/subtractor written from the 8086 Family User's Manual, self-checked at start-up against a wide-integer formulation");
     let openq = Quirks::from_keys(|k| ctx.is_open(k));
